@@ -114,6 +114,10 @@ def run(ctx):
                "rounding (1e-9 relative to the mean square)")
     ctx.assume("reset() is compared with a new element of the same structural parameters and default start values "
                "(Count(count=), Sum(total=) are documented to reset to 0)")
+    ctx.assume("GroupBy(group_by, merge): the arguments are the empty string, keys, dotted keys of a sub-dictionary, "
+               "given as a bare string, a tuple of strings or omitted (lists are not documented); only configurations "
+               "that the element accepts; a GroupBy that selects given keys only is filled with contexts that have at "
+               "least one of them; where a rule leads into a sub-dictionary every filled context has it")
     ctx.assume("NumpyHistogram is not exercised (numpy is not installed); FillRequest/FillRequestSeq.reset belong to C16")
     cover = ("Fill", "Compute", "Reset")
     quick_recs = None
@@ -153,9 +157,11 @@ def run(ctx):
     validate_histories(ctx, histories)
     float_oracle(ctx, rnd)
     return ctx.finish(
-        rule="S2C: every history over {fill(v), compute, reset} of the bounded Accumulators model (45 element "
-             "kinds, 62 in the thorough tier; floats as exact halves, values that look like nothing, deprecated "
-             "aliases, sum_seq with contexts, reset that raises; Vectorize over lists of different elements with None padding, dim 3, "
+        rule="S2C: every history over {fill(v), compute, reset} of the bounded Accumulators model (59 element "
+             "kinds, 93 in the thorough tier; floats as exact halves, values that look like nothing, deprecated "
+             "aliases, sum_seq with contexts, reset that raises; GroupBy over its configuration space (group_by, "
+             "merge) as given - empty string, keys, nested keys, include within exclude, bare string / tuple / "
+             "omitted, the default arguments; Vectorize over lists of different elements with None padding, dim 3, "
              "construct) replayed on the real element, every compute compared, suffix after the last reset replayed on "
              "a new element; non-trivial = at least one fill; C2S: seeded random histories (<= 22/30 operations, "
              "random ints, full-mantissa floats of mixed magnitude, random contexts/edges) validated step by step "
